@@ -198,6 +198,21 @@ func c11OnlyMatchedDeleted(r *an.Run) {
 			case *ssa.Function:
 				clo = v
 			}
+			// the answer "not used" is given only after the walk: no return of false before ast.Inspect ran
+			early := successWithoutAction(u, insp[0])
+			if early != nil {
+				// a shortcut that looks only at the name (blank, empty) is no statement about the file
+				onFile := false
+				for _, cd := range r.P.AllCtrlDeps(early.Block()) {
+					if iff, ok := cd.Block.Instrs[len(cd.Block.Instrs)-1].(*ssa.If); ok && derivesFrom(iff.Cond, paramAt(u, 0)) {
+						onFile = true
+					}
+				}
+				if !onFile {
+					early = nil
+				}
+			}
+			r.Check(early == nil, short(u)+"|no-answer-before-the-walk", insp[0].Pos(), "usesNameAsTopLevel answers only after walking the file as it is now: no shortcut (an index built by the parser such as File.Unresolved, a cache) decides before the walk — earlier changes of the same run have edited the tree in place")
 			if r.Check(clo != nil, short(u)+"|callback", u.Pos(), "inspect callback is a function literal") {
 				// return false only when sel.X is an *ast.Ident
 				var identOK []an.CtrlEdge
